@@ -321,7 +321,10 @@ class LSML_Supervised(_BaseLSML, TransformerMixin):
     else:
       self.n_constraints = n_constraints
     # Avoid test get_params from failing (all params passed sholud be set)
-    self.num_constraints = 'deprecated'
+    # keep the marker object that was passed: clone compares constructor
+    # parameters by identity, which a pickle round trip does not preserve
+    self.num_constraints = (
+        num_constraints if num_constraints == 'deprecated' else 'deprecated')
     self.weights = weights
 
   def fit(self, X, y):
